@@ -70,6 +70,8 @@ pub struct WebSocketFramed<T, C, E, D> {
     encode_item: PhantomData<E>,
     decode_item: PhantomData<D>,
     buffer: Option<BytesMut>,
+    /// the buffer holds bytes the decoder has not been asked about yet
+    readable: bool,
 }
 
 impl<T, C, E, D> Unpin for WebSocketFramed<T, C, E, D> {}
@@ -80,7 +82,7 @@ where
     C: Encoder<E, Error = anyhow::Error> + Decoder<Item = D, Error = anyhow::Error> + Unpin,
 {
     pub fn new(stream: WebSocketStream<T>, codec: C) -> Self {
-        Self { stream, codec, encode_item: PhantomData, decode_item: PhantomData, buffer: None }
+        Self { stream, codec, encode_item: PhantomData, decode_item: PhantomData, buffer: None, readable: false }
     }
 }
 
@@ -94,27 +96,42 @@ where
 
     fn poll_next(mut self: Pin<&mut Self>, cx: &mut Context<'_>) -> Poll<Option<Self::Item>> {
         loop {
-            match ready!(self.stream.poll_next_unpin(cx)) {
-                Some(Ok(msg)) => {
-                    if msg.is_binary() || msg.is_text() {
-                        let mut payload = match self.buffer.take() {
-                            Some(buffer) => {
-                                let msg_payload = msg.as_payload();
-                                let mut payload = BytesMut::with_capacity(buffer.len() + msg_payload.len());
-                                payload.extend_from_slice(&buffer);
-                                payload.extend_from_slice(msg_payload);
-                                payload
-                            }
-                            None => BytesMut::from(msg.into_payload()),
-                        };
-                        let decoded = self.codec.decode(&mut payload);
+            // frames that have already arrived are delivered before the transport is polled again; the transport is polled
+            // (and registers the waker) whenever the decoder needs more bytes
+            if self.readable {
+                let this = &mut *self;
+                match this.buffer.take() {
+                    Some(mut payload) => {
+                        let decoded = this.codec.decode(&mut payload);
                         if !payload.is_empty() {
-                            self.buffer = Some(payload);
+                            this.buffer = Some(payload);
                         }
                         match decoded {
                             Ok(Some(item)) => return Poll::Ready(Some(Ok(item))),
-                            Ok(None) => return Poll::Pending,
-                            Err(e) => return Poll::Ready(Some(Err(e))),
+                            Ok(None) => this.readable = false,
+                            Err(e) => {
+                                this.readable = false;
+                                return Poll::Ready(Some(Err(e)));
+                            }
+                        }
+                    }
+                    None => this.readable = false,
+                }
+                continue;
+            }
+            match ready!(self.stream.poll_next_unpin(cx)) {
+                Some(Ok(msg)) => {
+                    if msg.is_binary() || msg.is_text() {
+                        let payload = match self.buffer.take() {
+                            Some(mut buffer) => {
+                                buffer.extend_from_slice(msg.as_payload());
+                                buffer
+                            }
+                            None => BytesMut::from(msg.into_payload()),
+                        };
+                        if !payload.is_empty() {
+                            self.buffer = Some(payload);
+                            self.readable = true;
                         }
                     }
                     continue;
